@@ -5,10 +5,45 @@ import FixModel.Bytes
 
 def digitChar (d : Nat) : UInt8 := UInt8.ofNat (48 + d)
 
+/-- decimal digits with explicit fuel (structural, so the kernel can evaluate it) -/
+def natDigitsFuel : Nat → Nat → Bytes
+  | 0, n => [digitChar (n % 10)]
+  | f + 1, n => if n < 10 then [digitChar n] else natDigitsFuel f (n / 10) ++ [digitChar (n % 10)]
+
 /-- decimal digits of a natural number, most significant first (`strconv.FormatUint`) -/
-def natDigits (n : Nat) : Bytes :=
-  if _h : n < 10 then [digitChar n] else natDigits (n / 10) ++ [digitChar (n % 10)]
-decreasing_by omega
+def natDigits (n : Nat) : Bytes := natDigitsFuel n n
+
+theorem natDigitsFuel_eq : ∀ (f n : Nat), n ≤ f → natDigitsFuel f n = natDigitsFuel n n := by
+  intro f
+  induction f using Nat.strongRecOn with
+  | _ f ih =>
+    intro n hn
+    cases f with
+    | zero =>
+      have : n = 0 := by omega
+      subst this; rfl
+    | succ f =>
+      cases n with
+      | zero => simp [natDigitsFuel, digitChar]
+      | succ k =>
+        simp only [natDigitsFuel]
+        split
+        · rfl
+        · have h1 : (k + 1) / 10 ≤ f := by omega
+          have h2 : (k + 1) / 10 ≤ k := by omega
+          rw [ih f (by omega) _ h1, ih k (by omega) _ h2]
+
+/-- the defining equation of `natDigits` -/
+theorem natDigits_eq (n : Nat) :
+    natDigits n = if n < 10 then [digitChar n] else natDigits (n / 10) ++ [digitChar (n % 10)] := by
+  unfold natDigits
+  cases n with
+  | zero => simp [natDigitsFuel, digitChar]
+  | succ k =>
+    simp only [natDigitsFuel]
+    split
+    · rfl
+    · rw [natDigitsFuel_eq k ((k + 1) / 10) (by omega)]
 
 /-- `strconv.Itoa` -/
 def itoa (i : Int) : Bytes :=
